@@ -93,7 +93,8 @@ def finish(prop, pc, tier, seed, results, kani_res, wall, update_baseline=False)
     base = _load(bpath, {})
     if update_baseline:
         for u, ids in all_ids_by_unit.items():
-            base[u] = ids
+            # each property runs only its own harnesses, so the kani list is accumulated, never replaced
+            base[u] = sorted(set(base.get(u, [])) | set(ids)) if u == "kani" else ids
         os.makedirs(os.path.dirname(bpath), exist_ok=True)
         json.dump(base, open(bpath, "w"), indent=1, sort_keys=True)
         log("baseline updated for units", list(all_ids_by_unit))
